@@ -9,43 +9,43 @@ TECH = "runtime monitoring: generated workload on the real code + %s"
 CHECKS = {
     "C01": ("round trip generate->parse->generate observed on generated programs through both entry routes (text, S-expression build); equality judged by the library's == and by the harness's reference meaning and declarations",
             "reference-model oracle (meaning normal form) and byte comparison of regenerated text"),
-    "C02": ("generated derivations rendered with random layouts (separators, padding, comments) must yield the derivation's S-expression and equal circuits; token-level near-misses judged against an independent predictive parser for accept/reject, tree and error position",
+    "C02": ("generated derivations rendered with random layouts (separators, padding, comments) must yield the derivation's S-expression and equal circuits; token-level near-misses (incl. look-alike Unicode digits/letters and characters that are no Jaqal white space) judged against an independent lexer and predictive parser for accept/reject, tree and error position; file entry points compared with the string entry points; reductions counted per grammar production of the real LR parser",
             "reference-model oracle (independent lexer + predictive parser) + metamorphic layouts"),
-    "C03": ("emulator state vectors and probabilities compared with an independent tensor-contraction simulator on executable programs over a harness-supplied native gate set; observed unitary-evaluation stream compared with the reference gate stream",
+    "C03": ("emulator state vectors and probabilities compared with an independent tensor-contraction simulator on executable programs over a harness-supplied native gate set; observed unitary-evaluation stream compared with the reference gate stream; a quarter of the circuits re-assembled from core constructors with statements made by keyword calls in random order",
             "reference-model oracle (independent simulator) + event log of unitary evaluations"),
-    "C04": ("expand_macros output compared with reference call-by-substitution on the input IR; header/annotation preservation; wrong-arity probes built from core objects",
+    "C04": ("expand_macros output compared with reference call-by-substitution on the input IR; header/annotation preservation; wrong-arity probes built from core objects; circuits also assembled through the CircuitBuilder object API (objects built at once or unevaluated) and calls repeated on the same circuit object with the other option",
             "reference-model oracle (substitution semantics) + icontract postconditions on the real pass"),
-    "C05": ("fill_in_let output compared with reference let evaluation under generated override dictionaries; graph walk for leftover constants; resolved-qubit comparison through the result's own objects",
+    "C05": ("fill_in_let output compared with reference let evaluation under generated override dictionaries; graph walk for leftover constants; resolved-qubit comparison through the result's own objects; calls after earlier calls with other environments on the same circuit object and with one override dictionary shared by many calls",
             "reference-model oracle (let evaluation in an environment)"),
-    "C06": ("bounded-exhaustive alias chains (all in-range start/stop/step per level, literal/defaulted/let-valued bounds, every index, five statement positions); expected physical index from model arithmetic; five consumers compared (resolve_qubit, fill_in_map, used-qubit analysis, emulator, pyGSTi label)",
+    "C06": ("bounded-exhaustive alias chains (all in-range start/stop/step per level incl. slices counting down, literal/defaulted/let-valued/overridden bounds, every index, seven statement positions); expected physical index from model arithmetic; six consumers compared (resolve_qubit, fill_in_map, used-qubit analysis, emulator on a backend shared between circuits, pyGSTi label, resolution in a caller-supplied context); references that denote no element must be refused by every consumer",
             "reference arithmetic on declarations + consumer agreement monitors"),
-    "C07": ("meaning read from the parsed IR compared with the model's lexical binding, macros unexpanded and expanded, on programs biased to identical statements in different scopes and parameter/header name collisions; metamorphic removal of a twin statement; GateMemoizer.get cache hits monitored",
+    "C07": ("meaning read from the parsed IR compared with the model's lexical binding, macros unexpanded and expanded, on programs biased to identical statements in different scopes and parameter/header name collisions; metamorphic removal of a twin statement; GateMemoizer.get cache hits monitored; routes text / S-expression lists and tuples / CircuitBuilder objects / text over one fixed gate-definition set judged after a shifted twin program (same spelling, aliases moved) was built in the same process",
             "reference-model oracle (lexical binding) + monitor on the gate memo table"),
-    "C08": ("call histories of the emulator and of parse_jaqal_output_list (readout sequence, per-subcircuit readout lists, frequencies) compared with the reference unrolling; termination judged as a logical step budget counted with sys.monitoring LINE events",
+    "C08": ("call histories of the emulator and of parse_jaqal_output_list (readout sequence, per-subcircuit readout lists, frequencies) compared with the reference unrolling; termination judged as a logical step budget counted with sys.monitoring LINE events; overrides applied before or after macro expansion; the job interface executed repeatedly",
             "history checker against reference unrolling + sys.monitoring step budget"),
     "C10": ("pass sequences (<=4, with repetition) over expand_subcircuits / fill_in_let(ov) / expand_macros / fill_in_map compared by full reference meaning; idempotence by ==, text and meaning; parser expand_* flags vs pass composition; generated text of every intermediate result re-parsed",
             "reference-model oracle over generated call sequences"),
-    "C11": ("identity-aware deep fingerprints of the shared circuit object before and after every call (icontract snapshot/ensure on the nine real functions, plus the exception path) over random call histories with chained calls; every result compared with the same call on a freshly parsed copy; thorough: the repository's own tests run with the contracts on",
+    "C11": ("identity-aware deep fingerprints of the shared circuit object before and after every call (icontract snapshot/ensure on the nine real functions, plus the exception path) over random call histories with chained calls; every result compared with the same call on a freshly parsed copy and, for the used-qubit analysis, with an absolute invariant (only this circuit's register and indices); thorough: the repository's own tests run with the contracts on",
             "icontract contracts (input fingerprint unchanged) on the real functions + history/fresh-copy comparison"),
-    "C12": ("bounded-exhaustive bracket sequences of prepare/measure/gate leaves under loop/block/macro/subcircuit containers judged against a flat-order scan transcribed from the property statement; accepted programs have subcircuit count and states compared",
+    "C12": ("bounded-exhaustive bracket sequences of prepare/measure/gate leaves under loop/block/macro/subcircuit containers judged against a flat-order scan transcribed from the property statement; accepted programs have subcircuit count and states compared; the same rule on the nestings only circuits assembled from core constructors can have",
             "reference acceptance oracle over an enumerated space + state comparison"),
-    "C13": ("used-qubit sets of circuits and statements compared with reference reachability; emulator acceptance compared with a reference overlap scan; branch permutations; event log of every merge_into decision",
+    "C13": ("used-qubit sets of circuits and statements compared with reference reachability; emulator acceptance compared with a reference overlap scan; branch permutations; event log of every merge_into decision; gate definitions built directly and derived by copy() from an already-used definition",
             "reference-model oracle + event log of merge decisions + metamorphic permutation"),
-    "C14": ("programs with exactly one seeded reference fault (index/bound out of range, non-register source, undefined/duplicate identifier, unknown gate, wrong count/kind, non-integral float; literal / let / override / macro substitution) each with a positive twin; stage-by-stage pipeline observed (parse, fill_in_let, expand_macros, run); gate-set precedence with scratch pulse modules",
+    "C14": ("programs with exactly one seeded reference fault (index/bound out of range, non-register source, undefined/duplicate identifier, unknown gate, wrong count/kind, non-integral float; literal / let / override / macro substitution) each with a positive twin; stage-by-stage pipeline observed (parse, fill_in_let, expand_macros, run) and the parser's own substitution routes (expand_let / expand_let_map with override_dict); undefined-identifier faults also with the names the builder was observed (hook on Builder.build) to keep in its own context; gate-set precedence with scratch pulse modules",
             "fault-seeding workload with twin controls + stage-by-stage outcome monitor"),
     "C15": ("all result views (probabilities, string/int keyed views, readout forms, frequencies) checked against an independent bits(k,n) and plain counting on emulator results, exhaustive outcome lists for n<=6/8 as int and as str, and perturbed probability vectors",
             "invariant monitor over returned result objects"),
-    "C16": ("random strings, truncations, token mutants and semantic-garbage templates through parse_to_sexpression / parse_jaqal_string (random flags) / run_jaqal_circuit under a logical step budget; outcome must be a result, JaqalError (JaqalParseError with a valid position) or a justified ImportError; call histories in fresh interpreter processes compared per text, plus a process-global state fingerprint after every call",
+    "C16": ("random strings, truncations, token mutants and semantic-garbage templates through parse_to_sexpression / parse_jaqal_string (random flags) / run_jaqal_circuit under a logical step budget; outcome must be a result, JaqalError (JaqalParseError with a valid position) or a justified ImportError; call histories in fresh interpreter processes compared per text, plus a process-global state fingerprint after every call; tiny hostile texts parsed in child processes under a wall-clock limit four orders of magnitude above the normal cost (time inside one C-level call is invisible to step counting)",
             "exception-type / position monitor + sys.monitoring step budget + history comparison across fresh processes + global-state fingerprint"),
-    "C17": ("each generated program built four ways (Jaqal text, S-expression build, CircuitBuilder objects, Q-syntax) and compared pairwise by ==, generated text and reference meaning; implicit prepare/measure wrapping rule; auto-generated names read back and checked for freshness against user names of both kinds",
+    "C17": ("each generated program built four ways (Jaqal text, S-expression build, CircuitBuilder objects, Q-syntax) and compared pairwise by ==, generated text and reference meaning; implicit prepare/measure wrapping rule; auto-generated names read back and checked for freshness against user names of both kinds; every Q-syntax function called twice; full-language programs (macros, aliases) built as text, S-expression and through the CircuitBuilder object API used the documented way must be equal and behave alike under the passes",
             "differential comparison of four front ends + reference-model oracle"),
-    "C18": ("exhaustive signatures (length 0-3 over 5 kinds) x argument value classes x arities n-1/n/n+1, positional vs keyword, against the kind table of the statement; idle and stretched variants of every native gate: signature, used qubits, emulated effect, unitary for sampled stretch factors",
+    "C18": ("exhaustive signatures (length 0-3 over 5 kinds) x argument value classes (incl. infinities, NaN, huge floats) x arities n-1/n/n+1, positional vs keyword, against the kind table of the statement; idle and stretched variants of every native gate: signature, used qubits, emulated effect, unitary for sampled stretch factors",
             "exhaustive table-driven oracle over the real GateDefinition/Parameter code + emulator effect monitor"),
-    "C19": ("reference lock-step scheduler applied to input and (required flat) output IR of normalize_blocks_with_unitary_timing with uniquely tagged gates; loops under parallel blocks must be rejected; header data and subcircuit annotations compared",
+    "C19": ("reference lock-step scheduler applied to input and (required flat) output IR of normalize_blocks_with_unitary_timing with uniquely tagged gates; loops under parallel blocks must be rejected; header data and subcircuit annotations (counts 0, 1, n, let-valued) compared; parallel subcircuit blocks made from core constructors",
             "reference-model oracle (scheduler) with unambiguous gate identities"),
     "C20": ("reflexivity, symmetry, equality with the re-parse of generated text and of layout variants; every single-point mutant whose model declarations or meaning differ must compare unequal in both directions; outcome counters on every __eq__ of the IR classes",
             "mutation-based oracle on the real __eq__ methods + reach counters"),
-    "C09": ("expand_subcircuits output compared with reference expansion; execution and output-list parsing compared between the subcircuit spelling and the prepare/measure spelling under the same numpy seed",
+    "C09": ("expand_subcircuits output compared with reference expansion (default, caller-supplied and named bounding gates, gate sets with and without the bounding gates, input header snapshot, repeated calls on one object); execution and output-list parsing compared between the subcircuit spelling and the prepare/measure spelling under the same numpy seed",
             "reference-model oracle + metamorphic execution pairs under a logical step budget"),
 }
 SECTION = {k: "DESIGN.md section 4 %s" % k for k in ["C%02d" % i for i in range(1, 21)]}
